@@ -151,12 +151,75 @@ func (q Quantity) timeDuration() (time.Duration, error) {
 	case "second", "seconds":
 		milliseconds := decimal.Decimal(q.value).Round(3).Shift(3).IntPart() // Keep decimal precision below seconds
 		duration = time.Millisecond * time.Duration(milliseconds)
-	case "millisecond":
+	case "millisecond", "milliseconds":
 		duration = time.Millisecond * time.Duration(value)
 	default:
 		return time.Duration(0), fmt.Errorf("%w: not a time-valued unit", ErrMismatchedUnit)
 	}
 	return duration, nil
+}
+
+// calendarShift describes how a time-valued quantity moves a date/time value of a given
+// precision: whole years and months (added with end-of-month clamping), whole days, and an
+// exact duration. An amount in a unit finer than the precision is first converted to whole
+// units of that precision (1 year = 365 days, 1 month = 30 days, fractions dropped).
+type calendarShift struct {
+	years, months, days int
+	duration            time.Duration
+}
+
+// shiftFor returns the shift the quantity stands for at the given precision (one of the
+// dateTimePrecision values; dates use dtYear, dtMonth and dtDay).
+func (q Quantity) shiftFor(p dateTimePrecision) (calendarShift, error) {
+	switch p {
+	case dtYear:
+		years, err := q.toYears()
+		return calendarShift{years: years}, err
+	case dtMonth:
+		months, err := q.toMonths()
+		return calendarShift{months: months}, err
+	}
+	value := int(decimal.Decimal(q.value).IntPart())
+	switch q.unit {
+	case "year", "years":
+		return calendarShift{years: value}, nil
+	case "month", "months":
+		return calendarShift{months: value}, nil
+	case "week", "weeks":
+		return calendarShift{days: 7 * value}, nil
+	case "day", "days":
+		return calendarShift{days: value}, nil
+	}
+	duration, err := q.timeDuration()
+	if err != nil {
+		return calendarShift{}, err
+	}
+	switch p {
+	case dtDay:
+		return calendarShift{days: int(duration / (24 * time.Hour))}, nil
+	case dtHour:
+		duration = duration / time.Hour * time.Hour
+	case dtMinute:
+		duration = duration / time.Minute * time.Minute
+	}
+	return calendarShift{duration: duration}, nil
+}
+
+// apply moves t by the shift (sign is +1 or -1).
+func (s calendarShift) apply(t time.Time, sign int) time.Time {
+	if s.years != 0 {
+		t = addYear(t, sign*s.years)
+	}
+	if s.months != 0 {
+		t = addMonth(t, sign*s.months)
+	}
+	if s.days != 0 {
+		t = t.AddDate(0, 0, sign*s.days)
+	}
+	if s.duration != 0 {
+		t = t.Add(time.Duration(sign) * s.duration)
+	}
+	return t
 }
 
 // Converts valid time based quantities to a number of years,
